@@ -11,6 +11,11 @@
   Two defects of the pinned tree are repaired (fixes/C04-auto-filter-heralds.diff, fixes/C04-evolve-empty-group.diff);
   the main definitions (`autoFilter`, `mergeGroups`) are the repaired behaviour, `autoFilterUnrepaired` and
   `mergeGroupsUnrepaired` keep the old one for the regression witnesses in `Props/C04.lean`.
+  A third one (fixes/C04-stale-mask-vacuum.diff: a reused simulator computed vacuum inputs under the mask of an
+  earlier request) has no counterpart here: the model is a function of one request, i.e. the repaired,
+  history-independent behaviour; the witnesses are corpus/C04/reuse-*.json.
+  The heralds are a list in *declaration order*; every definition reads it through `List.lookup`/`sum`, and
+  `Props/C04.lean` proves that the order is irrelevant.  Detectors: section "detector stage" below.
 
   Assumed / not modelled (recorded in the evidence): the probability-trimming thresholds of
   `_preprocess_svd` and `list_tensor_product` (the check runs at `precision = 0`, leaving `min_p = 1e-16`);
